@@ -328,8 +328,6 @@ class Report:
         self.violations.append({"rule": rid, "instance": str(instance), "where": where, "what": what, "data": data})
 
     def finish(self, explanation, checker_cmd, trusted_base, exhaustive=False):
-        if self.pending and not self.violations:
-            raise AnalysisBroken(self.pending[0])
         known = [k for k in load_known() if k.get("property") == self.pid and k.get("status") == "open"]
         fresh = []
         for v in self.violations:
@@ -342,6 +340,8 @@ class Report:
                 self.known_hits.append((hit, v))
             else:
                 fresh.append(v)
+        if self.pending and not fresh:
+            raise AnalysisBroken(self.pending[0])
         broken = [(rid, r) for rid, r in self.rules.items() if r["instances"] < r["floor"]]
         os.makedirs(REPLAY, exist_ok=True)
         # stale replay files of this property are removed
